@@ -111,6 +111,15 @@ def _ops(max_len):
         st.tuples(st.just("eq"), ref, ref).map(list),
         st.tuples(st.just("mutate-generated"), ref, st.integers(0, 5)).map(list),
         st.tuples(st.just("repeat"), ref).map(list),
+        # patterns with explicit and open-ended counts around / above the generator's repeat limit
+        st.tuples(st.just("declare"), _pattern_spec()).map(list),
+        st.tuples(st.just("declare"), _pattern_spec()).map(list),
+        # `key: ...` placeholders for the keys of a pooled dict schema selected by a bit mask
+        st.tuples(st.just("substitute-placeholders"), ref, st.integers(1, 15), st.booleans()).map(list),
+        st.tuples(st.just("substitute-placeholders"), ref, st.integers(1, 15), st.booleans()).map(list),
+        # a generation that fails below `depth` containers
+        st.tuples(st.just("failing-fake"), st.integers(0, 3), st.integers(0, 6)).map(list),
+        st.tuples(st.just("failing-fake"), st.integers(0, 3), st.integers(3, 6)).map(list),
     )
     prefix = st.tuples(
         st.tuples(st.just("declare"), spec).map(list),
@@ -128,6 +137,14 @@ def _ops(max_len):
     ).map(list)
     tail = st.lists(op, min_size=8, max_size=max_len - 8)
     return st.tuples(prefix, tail).map(lambda t: t[0] + t[1])
+
+
+def _pattern_spec():
+    from .. import regexgen
+    big = st.sampled_from(["x{40,}", "[ab]{33,}?", "(?:ab){64,}", "\\d{44}", "y{0,44}"])
+    return st.one_of(regexgen.cheap_pattern_strategy(2).map(regexgen.render), big,
+                     st.tuples(big, regexgen.cheap_pattern_strategy(1).map(regexgen.render)).map("-".join)
+                     ).map(lambda p: {"t": "str", "pattern": p})
 
 
 def _relaxed_first():
@@ -417,6 +434,23 @@ def check(case, ctx):
                             elif isinstance(g, dict):
                                 g["tampered"] = 1
                         return out
+            elif name == "substitute-placeholders":
+                s = w.schema(op[1])
+                keys = [k for k in _declared_keys(s)]
+                if keys:
+                    val = {}
+                    for j, k in enumerate(keys):
+                        if (op[2] >> (j % 4)) & 1:
+                            val[k] = ...
+                        elif op[3] and j % 2:
+                            val[k] = copy.deepcopy(PROBES[(op[2] + j) % len(PROBES)])     # most likely refused: fine
+
+                    def thunk(s=s, val=val):
+                        return substitute(s, val)
+            elif name == "failing-fake":
+                def thunk(kind=op[1], depth=op[2]):
+                    from .. import panel
+                    return panel.failing(kind, depth)
             elif name == "represent":
                 s = w.schema(op[1])
                 if s is not None:
@@ -510,6 +544,17 @@ def check(case, ctx):
                     raise Violation("argument-mutated",
                                     f"after step {step} {op!r}: caller-owned {kind} container #{n} was modified "
                                     f"by d42: now {obj!r}")
+        # ---- after the history: a fixed panel of seeded generations gives what it gives in a process without history
+        from .. import panel
+        mine = _fingerprint(panel.run)[0]
+        mine = ["raised", mine[1]] if mine[0] == "raised" else ["value", mine[1]]
+        ref_fp = _panel_reference()
+        if ref_fp is not None:
+            if mine != ref_fp:
+                raise Violation("history-dependent-generation",
+                                f"after this history the fixed panel of seeded generations (pbt/panel.py) gives "
+                                f"{_first_diff(mine, ref_fp)}")
+            ctx.label("panel-compared")
     finally:
         _r.setstate(rstate)
     ctx.label("steps:%d" % (10 * (len(case["ops"]) // 10)), "pool:%d" % min(len(w.pool), 10))
@@ -519,6 +564,31 @@ def check(case, ctx):
         ctx.label("refinement-raised")
     if interesting_at is not None and interesting_at < len(case["ops"]) - 1:
         ctx.mark_nontrivial(case, sample_class=(mutated_after_use, raised_refine))
+
+
+def _declared_keys(s):
+    from d42.declaration.types import DictSchema
+    from niltype import Nil
+    if isinstance(s, DictSchema) and s.props.keys is not Nil:
+        return [k for k in s.props.keys if k is not Ellipsis]
+    return []
+
+
+def _panel_reference():
+    import os
+    if _SERVER.get("panel_pid") != os.getpid():
+        resp = _pristine({"op": "panel", "schemas": [], "value": None, "has_value": False, "extra": None})
+        _SERVER["panel"] = resp.get("fp")
+        _SERVER["panel_pid"] = os.getpid()
+    return _SERVER["panel"]
+
+
+def _first_diff(a, b):
+    if a[0] != b[0]:
+        return f"{a[0]} {a[1][:200]!r}, in a fresh process {b[0]} {b[1][:200]!r}"
+    x, y = a[1], b[1]
+    i = next((i for i, (p, q) in enumerate(zip(x, y)) if p != q), min(len(x), len(y)))
+    return f"...{x[max(0, i - 60):i + 60]!r} where a fresh process gives ...{y[max(0, i - 60):i + 60]!r}"
 
 
 def _repair(obj):
